@@ -160,7 +160,7 @@ func (g *g) expr(depth int) string {
 }
 
 func (g *g) stmt(depth int) string {
-	n := 12
+	n := 14
 	if depth > 2 {
 		n = 5
 	}
@@ -192,13 +192,21 @@ func (g *g) stmt(depth int) string {
 		return fmt.Sprintf("select {\ncase %s := <-%s:\n_ = %s\n%s\ndefault:\n}", "v", g.pick(locals), "v", g.stmt(depth+1))
 	case 10:
 		return fmt.Sprintf("defer %s(%s)\n\ngo %s()", g.q(), g.expr(1), g.q())
-	default:
+	case 11:
 		return fmt.Sprintf("/* %s */\nreturn", g.comment())
+	case 12:
+		// a comment and a raw string that span lines (their inner lines must not become spacing)
+		return fmt.Sprintf("/* %s\n\n   %s */\n%s := `a\n\nb`\n_ = %s", g.comment(), g.comment(), "s", "s")
+	default:
+		return fmt.Sprintf("_ = %s\n\n\n/*\n%s\n*/", g.expr(1), g.comment())
 	}
 }
 
 func (g *g) decl() string {
-	switch g.t.Draw(9) {
+	switch g.t.Draw(10) {
+	case 9:
+		g.nvar++
+		return fmt.Sprintf("/*\nblock %s\n\nend\n*/\n\nvar v%d = `x\n\n\ny`", g.comment(), g.nvar)
 	case 0:
 		g.nvar++
 		return fmt.Sprintf("var v%d = %s", g.nvar, g.expr(0))
@@ -329,6 +337,14 @@ func Source(t *tape.Tape, opt Options) Spec {
 			s += " // " + g.comment()
 		}
 		return s
+	}
+	if t.Bool(1, 12) {
+		// an import declaration without specs: empty, or with its only import commented out
+		if t.Bool(1, 2) {
+			sb.WriteString("import ()\n\n")
+		} else {
+			sb.WriteString("import (\n// \"os\"\n)\n\n")
+		}
 	}
 	switch {
 	case len(sp.Imports) == 0:
